@@ -68,6 +68,26 @@ theorem C06_dup_party_note :
     RegPaths.build [⟨1, 1, 7, 5⟩, ⟨1, 1, 8, 6⟩] ≠ RegPaths.build [⟨1, 1, 8, 6⟩, ⟨1, 1, 7, 5⟩] :=
   RegPaths.dup_party_order_dependent
 
+open RegPaths in
+/-- **Signer node, order independence**: for every order in which the registered signers are announced to the node,
+the same outcome: error class, or closed registration (key, total stake) and the node's slot -/
+theorem C06_signer_perm (stakes : List (Nat × Nat)) {l₁ l₂ : List (Nat × Nat × Nat)} (h : l₁.Perm l₂) (hwf : WFT l₁)
+    (self : Entry) : signerPath stakes l₁ self = signerPath stakes l₂ self := signerPath_perm stakes h hwf self
+
+open RegPaths in
+/-- **Which node computes does not matter**: the aggregator's epoch service (`RegService.precompute`) and the client
+(`c06.message`) evaluate `build ls` on the signers-with-stake list `ls`; the signer node, given the announced
+(party, key) triples of `ls` and a stake store agreeing with `ls` on the listed parties, evaluates the same `build ls`
+(the content of "same function" for the REAL three entry points is the correspondence run) -/
+theorem C06_signer_is_build (stakes : List (Nat × Nat)) (ls : List Signer)
+    (hc : ∀ s ∈ ls, stakeIn stakes s.party = some s.stake) (self : Entry) :
+    signerPath stakes (ls.map Signer.triple) self =
+      match build ls with
+      | .error e => .error (.build e)
+      | .ok b => match b.slot self with
+        | none => .error .unregistered
+        | some i => .ok (b, i) := signerPath_eq_build stakes ls hc self
+
 /-! ## The aggregator's epoch service (`MithrilEpochService`): model `RegService.step` -/
 open RegService in
 /-- **Cache coherence, every reachable state**: for EVERY history of store writes, prunes, `inform_epoch`,
